@@ -65,6 +65,9 @@ CLAIMED = {
          "Every set of <=3 (thorough: <=4) anchored pool operations (valid, forked, failing-delta, out-of-window, replayed, cyclic, forged; all key types, both hash algorithms, published/unpublished) is resolved by the real processor/applier/parser/composer and compared field by field with the ref/sidetree reference; plus 40-long chains with cycle-closing competitors. Exhaustive within the stated alphabet and depth.",
          "Trusted: ref/sidetree, ref/doc, ref/jcs (independent of the code under test); harness-built requests; bounds as stated in evidence.",
          "DESIGN.md §3 C03"),
+ "C20": ("explicit-state BFS over submit / tick / observe / advance event sequences on a node assembled from the library's real parts, in lock-step with an end-to-end reference (acceptance rule + queue/batch model + ledger + ref/sidetree + independent projection)",
+         "4 (thorough 8) configurations (script pairs over create/update/recover/deactivate/alias-update, unpublished store on/off, one or two protocol versions, MaxOperationCount 1-3), BFS to depth 8 (thorough 11), ~8k reference states / ~24k replayed traces in quick; after every trace every DID is resolved through DocumentHandler.ResolveDocument and compared (document, commitments, deactivated, published flag, canonical id), acceptance and ledger transactions are compared at every step, and create response / long-form / short-form documents are compared.",
+         TB + " Faults and concurrent submissions are C16's subject.", "DESIGN.md §3 C20"),
 }
 
 NOT_YET = "check not built yet in this round (work in progress; see DESIGN.md §3 for the planned decision procedure)"
